@@ -15,8 +15,9 @@ NAMES = ["openat", "write", "close", "rename", "renameat", "renameat2", "unlink"
          "sendfile", "copy_file_range", "lseek"]
 ERRORS = {"write": "ENOSPC", "openat": "ENOSPC", "mkdir": "ENOSPC", "rename": "EIO", "close": "EIO", "pwrite64": "ENOSPC", "writev": "ENOSPC", "unlink": "EIO",
           "sendfile": "ENOSPC", "copy_file_range": "ENOSPC"}
+PERSISTENT = ("write", "pwrite64", "writev", "sendfile", "copy_file_range")  # a full device stays full: error on the K-th and all later calls
 # second layout: the output directory on another file system than the temporary directory (a data volume vs. /tmp)
-OTHER_FS_PRODUCERS = ["status", "create_zip", "make_zip", "download"]  # + the render producers in the thorough tier
+OTHER_FS_PRODUCERS = PRODUCERS  # (quick tier: with a previous version in place only, render producers strided more sparsely)
 
 
 def other_fs_root():
@@ -38,12 +39,13 @@ META = dict(
         "holding a complete previous version) a calibration run under strace counts, per syscall name, the calls before and inside the "
         "producer (bracketed by two marker stat() calls). Then every (syscall name, K) inside the bracket (+2 on each side) is a crash "
         "point: the producer runs in a fresh child under 'strace -f -e inject=<name>:signal=SIGKILL:when=K' (killed on entry to that call; "
-        "user-space buffers are lost) and, for write/openat/mkdir/rename/close/unlink, with error=ENOSPC|EIO instead. The render producers "
+        "user-space buffers are lost) and, for write/openat/mkdir/rename/close/unlink, with error=ENOSPC|EIO instead - once (that call only) and, "
+        "for the write-like calls, persistently (that call and every later one: the device stays full). The render producers "
         "are strided to <= 24 points per syscall name in the quick tier (lseek points only in the thorough tier). Oracle: the final path, opened by name afterwards, is absent, or "
         "parses completely (JSON / zip with clean testzip and readable nfo.json / exact payload bytes / PDF with pages / ODF package); a "
         "producer that reports success after an injected error must have left a complete file. Layouts: output next to the temporary directory, "
         "and (when the host has a second writable file system, e.g. /dev/shm) output on another file system than TMPDIR - all producers in the "
-        "thorough tier, the four cheap ones with a previous version in place in the quick tier. Non-trivial: the fault fired inside the "
+        "thorough tier; in the quick tier with a previous version in place only and the render producers strided to <= 10 points per syscall. Non-trivial: the fault fired inside the "
         "bracket (between the producer's first and last file-system call)."
     ),
     assumptions=[
@@ -210,7 +212,12 @@ def run_point(ctx, calib, base, producer, prestate, fault, name, k, layout="same
                 json.dump({"status": "previous run", "progress": 100}, f)
         else:
             shutil.copy(calib[ckey]["reference"], final)
-    inject = "%s:signal=SIGKILL:when=%d" % (name, k) if fault == "kill" else "%s:error=%s:when=%d" % (name, ERRORS[name], k)
+    if fault == "kill":
+        inject = "%s:signal=SIGKILL:when=%d" % (name, k)
+    elif fault == "error":
+        inject = "%s:error=%s:when=%d" % (name, ERRORS[name], k)
+    else:  # "error+": the device stays full - this call and every later one of that name fail
+        inject = "%s:error=%s:when=%d+" % (name, ERRORS[name], k)
     log = os.path.join(wd, "strace.log")
     cmd = [STRACE, "-f", "-o", log, "-e", "trace=%s,newfstatat,stat" % name, "-e", "inject=" + inject] + child_cmd(producer, wd, prestate, outdir)
     try:
@@ -227,19 +234,20 @@ def run_point(ctx, calib, base, producer, prestate, fault, name, k, layout="same
                     began = True
                 elif "VF_MARK_END" in line:
                     ended = True
-                elif "(INJECTED)" in line or "killed by SIGKILL" in line:
+                elif ("(INJECTED)" in line or "killed by SIGKILL" in line) and not fired:
                     fired = True
                     inside = began and not ended
     except OSError:
         pass
     inside = fired and began and not ended if fault == "kill" else fired and locals().get("inside", False)
+    reported_ok = "RESULT ok" in out or os.path.isdir(os.path.join(wd, "RESULT-ok"))  # (stdout itself may be hit by a persistent write error)
     case = dict(producer=producer, prestate=prestate, fault=fault, syscall=name, k=k)
     if layout != "same-fs":
         case["layout"] = layout
     why = validate(producer, final)
     if why:
         ctx.fail("%s:partial-file-visible:%s" % (producer, fault), case, "after %s on %s #%d (child rc=%r): %s" % (fault, name, k, rc, why))
-    elif fault == "error" and "RESULT ok" in out and not os.path.exists(final):
+    elif fault != "kill" and reported_ok and not os.path.exists(final):
         ctx.fail("%s:success-reported-without-output" % producer, case, "producer reported success after %s on %s #%d but the final path is missing" % (ERRORS[name], name, k))
     shutil.rmtree(wd, ignore_errors=True)
     if outdir:
@@ -249,6 +257,7 @@ def run_point(ctx, calib, base, producer, prestate, fault, name, k, layout="same
 
 def points(calib, producer, thorough):
     c = calib[producer]
+    other = producer.endswith("@other-fs")
     producer = producer.split("@")[0]
     pts = []
     for name in NAMES:
@@ -257,13 +266,16 @@ def points(calib, producer, thorough):
             continue
         b = c["before"].get(name, 0)
         ks = list(range(max(1, b - 1), b + n + 3))
-        if producer.startswith("render") and not thorough and len(ks) > 24:
-            step = len(ks) / 20.0
-            ks = sorted({ks[int(i * step)] for i in range(20)} | set(ks[-4:]))
+        cap, pick = (10, 6) if other else (24, 20)  # (the second layout repeats the render producers more sparsely)
+        if producer.startswith("render") and not thorough and len(ks) > cap:
+            step = len(ks) / float(pick)
+            ks = sorted({ks[int(i * step)] for i in range(pick)} | set(ks[-4:]))
         for k in ks:
             pts.append(("kill", name, k))
             if name in ERRORS:
                 pts.append(("error", name, k))
+            if name in PERSISTENT:
+                pts.append(("error+", name, k))
     return pts
 
 
